@@ -134,6 +134,18 @@ where
     if it.next().is_some() && it.len() != n - 1 {
         return Some(format!("len() after one next() = {} for {n} items", it.len()));
     }
+    // driven past the end: nothing left, and it says so
+    for k in [n, n + 2] {
+        let mut it = make();
+        let _ = it.nth(k);
+        if it.len() != 0 || it.size_hint() != (0, Some(0)) || it.next().is_some() {
+            return Some(format!("after nth({k}) on {n} items: len() = {}, size_hint() = {:?}", it.len(), it.size_hint()));
+        }
+    }
+    let mut it = make().skip(n + 1);
+    if it.next().is_some() || it.size_hint().1 != Some(0) {
+        return Some(format!("skip({}) on {n} items still yields / promises items", n + 1));
+    }
     None
 }
 
